@@ -105,3 +105,15 @@ Theorem C15_call_response_result_sound : forall p id,
   cp_syntax_ok p = true /\ cp_error p = None /\ cp_resource p = None /\ cp_result p = Some id.
 Proof. exact call_result_sound. Qed.
 Print Assumptions C15_call_response_result_sound.
+
+(* In a well-formed answer the service's error wins over everything else the answer carries. *)
+Theorem C15_get_response_error_wins : forall p e,
+  decode_get p = GService e <-> (gp_syntax_ok p = true /\ gp_error p = Some e /\
+     match gp_result p with Some r => existsb rejected (values_of r) | None => false end = false).
+Proof. exact get_error_wins. Qed.
+Print Assumptions C15_get_response_error_wins.
+
+Theorem C15_call_response_error_wins : forall p e,
+  cp_syntax_ok p = true -> cp_error p = Some e -> decode_call p = CService e.
+Proof. exact call_error_wins. Qed.
+Print Assumptions C15_call_response_error_wins.
